@@ -302,6 +302,11 @@ class Wsdl11(XmlSchema):
             if method.is_callback:
                 operation = SubElement(cb_port_type, WSDL11("operation"))
             else:
+                if method.port_type is not None:
+                    # check_method_port made sure it's one of the port types
+                    # of this service, which were all created above.
+                    port_type = self._get_or_create_port_type(method.port_type)
+
                 operation = SubElement(port_type, WSDL11("operation"))
 
             operation.set('name', method.operation_name)
